@@ -69,6 +69,7 @@ type microCtx struct {
 	viol     []vx.Found
 	conns    []*WConn
 	held     int64 // messages the stats account for at the idle point after the window (-1: n/a)
+	oldCh    *Channel // the channel object of the first daemon lifetime (C05 post-mortem)
 }
 
 // bad records a violation; clause starts with the ids of the properties it belongs to.
@@ -428,6 +429,7 @@ func RunMicro(spec MicroSpec) vx.Out {
 		x.preWin[id] = len(as)
 	}
 	x.sendsPre = x.totalSends()
+	x.oldCh = x.chanObj()
 
 	// ---- the window
 	results := make([]string, len(spec.Ops))
@@ -826,14 +828,17 @@ func (x *microCtx) afterRestart() {
 		w2.Sleep(600 * time.Millisecond)
 	}
 	finished := x.m1 != "" && x.finOK[x.m1]
-	// sends whose frame never appeared: a delivery pump had taken a message off the queue
-	// when the shutdown hit (the window nsqd's own comments acknowledge); each of them can
-	// explain at most one lost message
-	seenWin := 0
-	for k, as := range x.deliv {
-		seenWin += len(as) - x.preWin[k]
+	// Post-mortem of the first daemon: Channel.flush writes the in-flight table to the
+	// backend but does not clear it, so a message that is LOST and nevertheless sits in the
+	// old channel's in-flight table was registered in flight AFTER the flush - which only a
+	// consumer's messagePump does (StartInFlightTimeout after it took the message off the
+	// queue before the flush): the window nsqd's own comments acknowledge.
+	pumpHeld := map[string]bool{}
+	if x.oldCh != nil {
+		for _, m := range x.oldCh.inFlightMessages {
+			pumpHeld[string(m.Body)] = true
+		}
 	}
-	unseen := int(x.totalSends()-x.sendsPre) - seenWin
 	for _, body := range []string{"m1", "m2"} {
 		if x.spec.State == "none" {
 			break
@@ -843,18 +848,17 @@ func (x *microCtx) afterRestart() {
 			continue // a FIN overlapping the shutdown may go either way
 		}
 		if len(got) == 0 {
+			if pumpHeld[body] {
+				x.bad("C05 message in the hands of a delivery pump lost by a graceful shutdown", "%s (attempts before the shutdown: %d) was not delivered after the restart: a consumer's pump had taken it off the queue before Exit flushed the channel and registered it in flight afterwards; delivered: %v", body, before[body], x.afterRst)
+				continue
+			}
 			if body == "m1" && (hasOpIn(x.spec.Ops, "req1") || hasOpIn(x.spec.Ops, "req1d")) {
 				// REQ pops the message from the in-flight table and re-queues / defers it in a
 				// second step; a flush in between sees it nowhere
 				x.bad("C05 message being requeued lost by a graceful shutdown", "%s (attempts before the shutdown: %d) was being requeued (REQ) while Exit was flushing the channel and was not delivered after the restart; delivered: %v", body, before[body], x.afterRst)
 				continue
 			}
-			if unseen > 0 {
-				unseen--
-				x.bad("C05 message in the hands of a delivery pump lost by a graceful shutdown", "%s (attempts before the shutdown: %d) was not delivered after the restart, and a consumer's pump had taken a message off the queue while Exit was flushing the channel; delivered: %v", body, before[body], x.afterRst)
-				continue
-			}
-			x.bad("C05 unfinished message lost by a graceful shutdown", "%s (attempts before the shutdown: %d) was not delivered after the restart; delivered: %v", body, before[body], x.afterRst)
+		x.bad("C05 unfinished message lost by a graceful shutdown", "%s (attempts before the shutdown: %d) was not delivered after the restart; delivered: %v", body, before[body], x.afterRst)
 			continue
 		}
 		if got[0] < before[body]+1 {
